@@ -30,13 +30,15 @@ func vpat(d int, i int64) byte {
 }
 
 func runC19(c *harness.Ctx) {
-	switch c.T.Draw("part", 6) {
+	switch c.T.Draw("part", 7) {
 	case 0, 1:
 		runRelay(c)
 	case 2:
 		runRelayTransient(c)
 	case 5:
 		runAcceptLoops(c)
+	case 6:
+		runRelayRealPT(c)
 	default:
 		runTermMon(c)
 	}
